@@ -89,6 +89,31 @@ Sem(W, p, op, args) ==
     [] op = "compare" -> Compare(W, p, args[1], args[2])
     [] op \in RuleNamesP -> RuleCall(W, p, op, args[1])
 
+\* ---- a law of the pipelines: powers of a unit string ---------------------------------
+\* Used to extend the binding to strings far longer than a model string (buffer sizes, block-wise
+\* scans): TLC checks the law on the model for every short string; the harness then holds the real
+\* code to it for u^n up to 64 KiB, the result for u itself being judged by the model.
+\* A character is INERT when every class accepts it and no step can change it, join it with its predecessor or look
+\* across it (a following mark may still compose with it: that happens inside the unit).
+Inert(W, c) == LET a == W.u[c] IN
+  /\ a.ccc = 0 /\ a.cdec = <<c>> /\ a.kdec = <<c>> /\ a.lower = <<c>> /\ a.wm = -1 /\ ~a.zs
+  /\ a.jt # "T" /\ a.bidi # "NSM" /\ a.idp = "PVALID"
+  /\ \A pr \in DOMAIN W.comp : pr[2] # c
+UnitString(W, s) == s # <<>> /\ Inert(W, s[1]) /\ Inert(W, s[Len(s)])
+Power(s, n) == Flat([i \in 1..n |-> s])
+PowerResult(r, n) == IF IsOk(r) THEN Ok(Power(r.ok, n)) ELSE r
+PowerLaw(W, p, op, s, n) ==
+  UnitString(W, s) => Sem(W, p, op, <<Power(s, n)>>) = PowerResult(Sem(W, p, op, <<s>>), n)
+
+\* padding: i copies of the (inert) head in front, j copies of the (inert) tail behind.  First and last character,
+\* the set of characters and every local context stay what they were; a reported position moves by i.
+\* Unlike a power, a padded string is not periodic: the part that matters sits at an arbitrary offset.
+Pad(s, i, j) == [x \in 1..i |-> s[1]] \o s \o [x \in 1..j |-> s[Len(s)]]
+PadResult(r, s, i, j) == IF IsOk(r) THEN Ok([x \in 1..i |-> s[1]] \o r.ok \o [x \in 1..j |-> s[Len(s)]])
+                         ELSE IF "pos" \in DOMAIN r THEN [r EXCEPT !.pos = @ + i] ELSE r
+PadLaw(W, p, op, s, i, j) ==
+  UnitString(W, s) => Sem(W, p, op, <<Pad(s, i, j)>>) = PadResult(Sem(W, p, op, <<s>>), s, i, j)
+
 \* the string class a profile validates with
 ClassOf(p) == IF p \in {"UCM", "UCP"} THEN "Id" ELSE "Ff"
 =============================================================================
